@@ -294,6 +294,7 @@ func Decode[T any](c Cursor, obj Object, decode func(Cursor, Object, bool) (T, e
 			break
 		}
 		key := extractorKey{ref: ref, tp: tp}
+		verifSched("decode.lookup", ref)
 		if v, ok := x.cacheGet(key); ok {
 			// a cached nil interface result (T is an interface type and the
 			// decoder returned nil) is an untyped nil here; the comma-ok form
@@ -310,6 +311,7 @@ func Decode[T any](c Cursor, obj Object, decode func(Cursor, Object, bool) (T, e
 		}
 		refs = append(refs, ref)
 
+		verifSched("decode.get", ref)
 		obj, err = x.R.Get(ref, true)
 		if err != nil {
 			return zero, err
@@ -325,7 +327,9 @@ func Decode[T any](c Cursor, obj Object, decode func(Cursor, Object, bool) (T, e
 	// publish under all refs; adopt a concurrent decoder's result on a race so
 	// callers share one object (see cacheStoreOrLoad)
 	if len(refs) > 0 {
+		verifSched("decode.publish", refs[0])
 		res, _ = x.cacheStoreOrLoad(refs, tp, res).(T)
+		verifSched("decode.published", refs[0])
 	}
 
 	return res, nil
@@ -355,6 +359,7 @@ func DecodeExclusive[T any](c Cursor, obj Object, decode func(Cursor, Object, bo
 	}
 	key := extractorKey{ref: ref, tp: reflect.TypeFor[T]()}
 
+	verifSched("excl.enter", ref)
 	x.mu.Lock()
 	if v, ok := x.cache[key]; ok {
 		x.mu.Unlock()
@@ -362,6 +367,7 @@ func DecodeExclusive[T any](c Cursor, obj Object, decode func(Cursor, Object, bo
 	}
 	if p, ok := x.wip[key]; ok {
 		x.mu.Unlock()
+		verifSched("excl.wait", ref)
 		<-p.done
 		if p.err != nil {
 			return zero, p.err
@@ -371,14 +377,18 @@ func DecodeExclusive[T any](c Cursor, obj Object, decode func(Cursor, Object, bo
 	p := &pending{done: make(chan struct{})}
 	x.wip[key] = p
 	x.mu.Unlock()
+	verifSched("excl.registered", ref)
 
 	res, err := Decode(c, obj, decode)
 
+	verifSched("excl.finish", ref)
 	x.mu.Lock()
 	p.val, p.err = res, err
 	delete(x.wip, key)
 	x.mu.Unlock()
+	verifSched("excl.closing", ref)
 	close(p.done)
+	verifSched("excl.done", ref)
 
 	return res, err
 }
